@@ -1161,6 +1161,20 @@ func (fr *frame) builtin(b *ssa.Builtin, c *ssa.CallCommon, pos ssa.Instruction)
 			fr.st.setAt(kl, fmt.Sprintf("(store %s %s 0)", fr.st.get(u, kl), mm), mm)
 			return Val{}
 		}
+	case "Slice":
+		// unsafe.Slice(ptr, n), opt-in (contract: safety +unsafe-abstract): the result is an arbitrary
+		// slice of length and capacity n - which memory it views, and so its contents, are not
+		// connected to the object ptr points into (reinterpreting memory is outside the memory
+		// model). Only sound when the function does not write through the result.
+		if fr.contract != nil && fr.contract.Safety["unsafe-abstract"] {
+			if rv, ok := pos.(ssa.Value); ok {
+				n := fr.term(fr.val(c.Args[1]))
+				r := fr.freshOfType("unsafeslice", rv.Type())
+				fr.assume(fmt.Sprintf("(and (= (s_len %s) %s) (= (s_cap %s) %s))", r.t, n, r.t, n))
+				u.note("%s: unsafe.Slice is abstracted: an arbitrary slice of the given length (its contents are not connected to the memory it reinterprets)", fr.fn.Name())
+				return r
+			}
+		}
 	case "recover":
 		return Val{t: "(mk-ifc 0 0)", typ: types.Universe.Lookup("any").Type()}
 	case "close":
